@@ -59,12 +59,24 @@ func VerifHarness_Multisig_Send() {
 	for i := 0; i < nsig; i++ {
 		ids = append(ids, 1+verifChoice("signer"+string(rune('1'+i)), 4))
 	}
-	nonce0 := u.st.Accounts.GetNonce(msig)
+	nonce0 := verifU64Range("nonce0", 0, 1<<62)
+	u.st.Accounts.SetNonce(msig, nonce0)
 	data := SendData{Coin: 0, To: u.B, Value: verifBigNN("value")}
-	tx := verifTx(nonce0+1, verifGasPrice(), 0, TypeSend, data)
+	// the transaction's nonce is arbitrary: acceptance must imply last+1 (C04)
+	tx := verifTx(verifU64("nonce"), verifGasPrice(), 0, TypeSend, data)
 	raw := verifSignMulti(tx, msig, ids)
-	resp, _, _ := verifDeliverChecked(u, tx, raw, msig, nonce0)
+	resp, _, after1 := verifDeliverChecked(u, tx, raw, msig, nonce0)
 	if resp.Code == 0 {
+		// C04/C26: the same bytes again are rejected and cost the wallet nothing
+		r2 := u.deliver(raw)
+		after2 := verifSnapshot(u)
+		verifAssert("C04:replay-after-success-rejected", r2.Code != 0)
+		verifAssert("C26:second-delivery-rejected", r2.Code != 0)
+		for i, c := range after1.cells {
+			if c.kind == "balance" && c.owner != nil && *c.owner == msig {
+				verifAssert("C26:after-success:second-delivery-free:"+c.name, after2.cells[i].v.Cmp(c.v) == 0)
+			}
+		}
 		distinct := true
 		for i := range ids {
 			for j := i + 1; j < len(ids); j++ {
